@@ -27,9 +27,15 @@ class EnumRng:
         self.log = log
         self.zs = zs
 
-    def choice(self, a, p=None, **kw):
+    def choice(self, a, size=None, replace=True, p=None, **kw):
         a = list(a)
         idx = [i for i in range(len(a)) if p is None or p[i] > 0]
+        if size is not None:
+            # a block draw: one choice point decides the class the whole block is filled with
+            k = self.ch.choose(len(idx), "choice-block")
+            self.log.append(("choice", list(a), None if p is None else [float(x) for x in p], a[idx[k]]))
+            import numpy as _np
+            return _np.array([a[idx[k]]] * int(_np.prod(size)))
         k = self.ch.choose(len(idx), "choice")
         self.log.append(("choice", list(a), None if p is None else [float(x) for x in p], a[idx[k]]))
         return a[idx[k]]
@@ -159,12 +165,16 @@ class OneDrawRng:
         self.pick_class = pick_class
         self.hit = 0
 
-    def choice(self, a, p=None, **kw):
+    def choice(self, a, size=None, replace=True, p=None, **kw):
         a = list(a)
         if self.pick_class is not None and self.pick_class in a:
-            return self.pick_class
-        i = max(range(len(a)), key=lambda i: p[i] if p is not None else 0)
-        return a[i]
+            v = self.pick_class
+        else:
+            v = a[max(range(len(a)), key=lambda i: p[i] if p is not None else 0)]
+        if size is not None:
+            import numpy as _np
+            return _np.array([v] * int(_np.prod(size)))
+        return v
 
     def normal(self, loc=0.0, scale=1.0, size=None):
         if self.match(loc, scale, self.n):
@@ -262,13 +272,19 @@ def seeds_case(args):
     for seed in range(lo, hi):
         for cfgk, kw in enumerate((dict(), dict(num_pipelines=1, num_operators=1, waiting_seconds_mean=0.004, ticks_per_second=100),
                                    dict(query_prob=0.0, interactive_prob=0.5, batch_prob=0.5, num_operators=8, waiting_seconds_mean=0.5, ticks_per_second=10),
-                                   dict(query_prob=1.0, interactive_prob=0.0, batch_prob=0.0, waiting_seconds_mean=0.3, ticks_per_second=10))):
+                                   dict(query_prob=1.0, interactive_prob=0.0, batch_prob=0.0, waiting_seconds_mean=0.3, ticks_per_second=10),
+                                   # long runs with batch sizes that divide no power of two: an arrival event in every tick
+                                   dict(num_pipelines=3, num_operators=1, waiting_seconds_mean=0.004, ticks_per_second=100, _ticks=400),
+                                   dict(num_pipelines=7, num_operators=1, waiting_seconds_mean=0.004, ticks_per_second=100, _ticks=200))):
+            nticks = kw.pop("_ticks", 300) if "_ticks" in kw else 300
+            if nticks != 300 and seed % 8:
+                continue
             pr = params(random_seed=seed, **kw)
             g = WorkloadGenerator(**pr)
             seen = set()
             last = None
             what = dict(seed=seed, params=kw)
-            for t in range(300):
+            for t in range(nticks):
                 pls = g.run_one_tick()
                 if not pls:
                     continue
